@@ -43,6 +43,8 @@ def parseReq (tok : String) : Option Req := do
   let b := p.getD 2 ""
   let body ←
     if b == "n" then some ReqBody.none
+    else if b == "x" then some ReqBody.bad
+    else if b == "u" then some ReqBody.upgrade
     else if b.startsWith "s" then (natIn (dropS b 1) 1 400000).map ReqBody.sized
     else if b.startsWith "c" then
       let cs := dropS b 1
@@ -112,11 +114,15 @@ def parseCase (line : String) : Option Case :=
 
 /-- length of the shortest head the harness can build for request `i` (`c04_sim.rs` `build_head`) -/
 def minHeadLen (i : Nat) (body : ReqBody) : Nat :=
-  (match body with | .none => 3 | _ => 4) + decLen i + 13 +
-  (match body with
-   | .none => 0
-   | .sized n => 16 + decLen n + 2
-   | .chunked _ => 28) + 7
+  match body with
+  | .bad => 1
+  | _ =>
+    (match body with | .none | .upgrade => 3 | _ => 4) + decLen i + 13 +
+    (match body with
+     | .none | .bad => 0
+     | .upgrade => 41
+     | .sized n => 16 + decLen n + 2
+     | .chunked _ => 28) + 7
 
 def headsOk : Nat → List Req → Bool
   | _, [] => true
@@ -131,7 +137,9 @@ def showErr : ErrKind → String
   | .writeZero => "io:WriteZero"
   | .body => "body"
   | .disconnectTimeout => "disconnect-timeout"
-  | .tooLarge => "parse:too-large"
+  | .tooLarge => "parse"
+  | .parse => "parse"
+  | .upgrade => "MODEL-UPGRADE-LEAK"
   | .fuel => "MODEL-OUT-OF-FUEL"
 
 def traceStr (tr : List String) : String :=
